@@ -1,6 +1,6 @@
 (* Property C19 -- qtools operation counts are the true MAC counts and the
    energy totals add up.  Statements only; proofs in QTools/OpCount.v. *)
-From Coq Require Import ZArith List Bool QArith Qround Qabs.
+From Coq Require Import ZArith List Bool QArith Qround Qminmax Qabs.
 From QV Require Import QTools.OpCount.
 Open Scope Z_scope.
 Import ListNotations.
